@@ -5,7 +5,7 @@ generated visitor actually restores, field by field, is read off the typed HIR o
 import re
 
 from .core import RuleResult
-from .facts import walk, strip, peel_refs, fn_key, fn_loc, split_top, Render
+from .facts import walk, strip, peel_refs, fn_key, fn_loc, split_top, Render, pat_bindings
 
 LEVEL = ("Static analysis of the workspace compiled with every crate's `serde` feature: (build) the configuration type-checks; "
          "(both) every type with a Serialize impl has a Deserialize impl and vice versa; (struct) in the expanded derive "
@@ -137,6 +137,69 @@ def callee_name(c, n):
     return (None, None)
 
 
+def _conversion_carries(c, adt, short):
+    """For a struct that is (de)serialised through `serde(into = W, from = W)`: True if both `From` impls between it and W
+    build their target as a struct literal whose every field is taken from the like-named field of the source (by
+    destructuring or by field access); (field, reason) if a field of the struct is provably not carried (the target is built
+    by a constructor that does not take it); None if the impls were not read."""
+    fields = [f_["name"] for f_ in adt["variants"][0]["fields"]]
+    froms = [f for f in c.fns if f["d"]["name"] == "from" and (f["d"].get("trait") or "").endswith("From") and len(f["params"]) == 1 and not f.get("exp")]
+    mine = []
+    for f in froms:
+        self_ty = (f["d"].get("self_adt") or f["d"].get("self_ty") or "").split("::")[-1].split("<")[0]
+        src_ty = (f["inputs"][0] if f.get("inputs") else "").split("<")[0].split("::")[-1]
+        if short in (self_ty, src_ty) and self_ty and src_ty:
+            mine.append((f, self_ty, src_ty))
+    own = adt.get("path") or ""
+    def is_own(f_):
+        sa = f_["d"].get("self_adt") or ""
+        return sa == own or (sa.endswith("::" + own) or own.endswith("::" + sa)) and "wire" not in sa.replace(own, "")
+    from_w = [x for x in mine if x[0]["d"].get("self_adt") == own] or [x for x in mine if x[1] == short and x[2] != short]
+    to_w = [x for x in mine if x[0]["d"].get("self_adt") != own and x[2] == short] or [x for x in mine if x[2] == short and x[1] != short]
+    # wire type of the same short name (`wire::T` for `T`): both have the same short name; tell them apart by the module path
+    if not to_w or not from_w:
+        return None
+    for f, self_ty, src_ty in (to_w[:1] + from_w[:1]):
+        src = next((b for p_ in f["params"] for b in pat_bindings(p_)), None)
+        aliases = {}         # local -> source field it was destructured from
+        for y in walk(f["body"]):
+            if y.get("k") == "LetStmt" and y.get("init") is not None and y["pat"].get("k") == "Struct" and src is not None and peel_refs(y["init"]).get("local") == src["local"]:
+                for fp in y["pat"].get("fields") or []:
+                    for b in pat_bindings(fp["pat"]):
+                        aliases[b["local"]] = fp["name"]
+        lit = None
+        body = strip(f["body"])
+        tail = body
+        while tail.get("k") == "Block" and tail.get("e") is not None:
+            tail = strip(tail["e"])
+        if tail.get("k") == "Struct":
+            lit = tail
+        if lit is None:
+            if tail.get("k") in ("Call", "MethodCall"):
+                # built by a constructor: the fields of the struct that are not among its arguments get the constructor's defaults
+                argn = set()
+                for a_ in tail.get("args", []):
+                    a0 = peel_refs(a_)
+                    if a0.get("k") == "Path" and a0.get("local") in aliases:
+                        argn.add(aliases[a0["local"]])
+                    if a0.get("k") == "Field":
+                        argn.add(a0["name"])
+                lost = [x for x in fields if x not in argn]
+                if lost and self_ty == short:
+                    return (lost[0], "`From` restores it through `%s(..)`, which is not handed the stored `%s` and sets it itself" % (Render(c).e(tail["f"] if tail.get("k") == "Call" else tail)[:40], lost[0]))
+            return None
+        for fl in lit.get("fields") or []:
+            v = peel_refs(fl["e"])
+            okf = (v.get("k") == "Path" and aliases.get(v.get("local")) == fl["name"]) or (v.get("k") == "Field" and v["name"] == fl["name"] and src is not None and peel_refs(v["e"]).get("local") == src["local"])
+            if not okf:
+                if v.get("k") in ("Path", "Field") and (aliases.get(v.get("local")) or v.get("name")) in fields:
+                    return (fl["name"], "`From` fills `%s` from `%s`" % (fl["name"], aliases.get(v.get("local")) or v.get("name")))
+                return None
+        if set(fl["name"] for fl in lit.get("fields") or []) != set(fields) and not lit.get("base"):
+            return None
+    return True
+
+
 def rule_struct(ctx):
     res = RuleResult("R-C19-struct", "expanded derive output writes and restores every field/variant under its own name, directly, unconditionally")
     F = ctx.facts("serde")
@@ -263,7 +326,13 @@ def rule_struct(ctx):
                     via_conversion = True
         if via_conversion:
             res.instance("%s : serialised through a conversion" % inst)
-            res.undecided("%s : serialised-through-conversion" % inst, "the type is written and read through another type (`serde(into / from)`): that the conversions carry every field is not followed (fail closed)", loc)
+            verdict_ = _conversion_carries(c, a, short)
+            if verdict_ is True:
+                res.ok()        # both `From` impls carry every field under its own name; the other type is checked as a type of its own
+            elif verdict_ is None:
+                res.undecided("%s : serialised-through-conversion" % inst, "the type is written and read through another type (`serde(into / from)`): that the conversions carry every field was not established (fail closed)", loc)
+            else:
+                res.violate("%s : conversion-drops:%s" % (inst, verdict_[0]), "the type is written and read through another type, and %s: `%s` does not survive the round trip" % (verdict_[1], verdict_[0]), loc)
             continue
         if a["kind"] == "struct":
             fields = a["variants"][0]["fields"]
